@@ -35,11 +35,11 @@ PLAN = {
     'quick': [('value', 3, False, 2, False), ('strict', 3, False, 2, False), ('agg', 3, False, 2, False),
               ('scan', 3, False, 2, False), ('aggcore', 4, False, 2, False), ('scancore', 5, False, 3, False),
               ('value-core', 3, True, 2, False), ('value-core', 3, False, 2, True)],
-    'thorough': [('strict', 4, False, 3, False), ('agg', 4, False, 3, False), ('scan', 4, False, 3, False),
-                 ('bind4', 4, False, 3, False), ('let5', 5, False, 4, False), ('if5', 5, False, 3, False),
-                 ('aggcore', 5, False, 3, False), ('scancore', 6, False, 4, False), ('value', 3, False, 2, False),
-                 ('value-core', 3, True, 2, False), ('agg', 3, True, 2, False), ('value-core', 3, False, 2, True),
-                 ('bind4', 4, False, 3, True)],
+    'thorough': [('bind4', 4, False, 4, True), ('strict4', 4, False, 4, False), ('agg', 4, False, 4, False),
+                 ('scan', 4, False, 4, False), ('let5', 5, False, 4, False), ('if5', 5, False, 4, False),
+                 ('aggcore', 5, False, 4, False), ('scancore', 6, False, 5, False), ('value', 3, False, 2, False),
+                 ('strict', 3, False, 2, False), ('value-core', 3, True, 2, False), ('agg', 3, True, 2, False),
+                 ('value-core', 3, False, 2, True)],
 }
 WORKERS = 8
 _RANK = ['discharged', 'known', 'not_discharged', 'violated']
